@@ -788,14 +788,15 @@ void op_create_logger(World& W)
   L.sinks = chosen;
   bool recreated = false;
   for (auto const& l : W.loggers) if (l.name == name) recreated = true;
+  L.pat = static_cast<int>(c.pick(3)); // a re-created name may come back with another pattern
   L.ptr = SFrontend::create_or_get_logger(name, std::move(sv),
-                                          quill::PatternFormatterOptions{"%(message)", "%H:%M:%S.%Qns", quill::Timezone::GmtTime, false},
+                                          quill::PatternFormatterOptions{kLoggerPatterns[L.pat], "%H:%M:%S.%Qns", quill::Timezone::GmtTime, false},
                                           quill::ClockSourceType::System);
   W.loggers.push_back(L);
   if (recreated) W.lbl_recreated = true;
   std::string d = "Create(" + name + "=L" + std::to_string(W.loggers.size() - 1) + ",[";
   for (int k : chosen) d += std::to_string(k);
-  W.log_op(d + "])");
+  W.log_op(d + "],p" + std::to_string(L.pat) + ")");
 }
 
 void op_remove_logger(World& W, int wi, bool blocking)
